@@ -172,7 +172,7 @@ impl FeelDate {
   ///
   pub fn ym_duration(&self, other: &FeelDate) -> FeelYearsAndMonthsDuration {
     let mut months;
-    if self.0 < other.0 {
+    if (self.0, self.1, self.2) < (other.0, other.1, other.2) {
       months = 12 * (other.0 as i64 - self.0 as i64) + (other.1 as i64 - self.1 as i64);
       if self.2 > other.2 {
         months -= 1;
